@@ -225,6 +225,9 @@ def qbytes_unflatten(run):
 
 
 def build(run):
+    from props import conformance
+
+    conformance.run_conformance(run, ['ops'])
     run.assume("A-ENGINE", "A-PY", "A-TORCH-IDX output shapes of the aten ops", "A-TORCH-DISPATCH _make_wrapper_subclass reports the given size/stride/dtype/device",
                "A-SER ast.literal_eval(str(v)) == v for ints / None / lists / tuples of ints", "PackedTensor contract (C04)")
     run.assumptions += ["reachability over all histories: every constructor site / op maps invariant-satisfying inputs to invariant-satisfying outputs (induction, lemmas/Arith.lean inv_reach)",
